@@ -132,6 +132,22 @@ fn scenarios() -> Vec<Scn> {
     add("escape:trig-pretty", true, u64::MAX);
     add("escape:rdfxml", false, u64::MAX);
     add("escape:jsonld", false, u64::MAX);
+    for (syn, unit, quick) in [
+        ("nt", "crlf", true),
+        ("nt", "lfcr", false),
+        ("nt", "quote", true),
+        ("nt", "backslash", false),
+        ("nt", "tab", true),
+        ("nt", "cr", false),
+        ("nt", "backslash-quote", false),
+        ("nq", "crlf", false),
+        ("turtle", "crlf", true),
+        ("turtle-pretty", "crlf", false),
+        ("rdfxml", "crlf", false),
+        ("jsonld", "crlf", false),
+    ] {
+        add(&format!("escapeunit:{syn}+{unit}"), quick, u64::MAX);
+    }
     // named graphs enumerated by GRAPH ?g
     add("sparql:graph-var", true, u64::MAX);
     add("sparql:graph-var-light", false, u64::MAX);
@@ -436,6 +452,23 @@ fn scenario(name: &str, n: u64) -> Result<String, String> {
         "escape" => {
             let q = MQ::new(iri("http://x/s".into()), iri("http://x/p".into()), MT::string(nasty_literal(n)), if what == "nq" || what == "trig-pretty" { Some(iri("http://x/g".into())) } else { None });
             serialize(what, &[q])
+        }
+        // one literal made of N repetitions of a single escape-relevant unit (a run of one
+        // character, or a two-character sequence such as CR LF that a serializer may special-case)
+        "escapeunit" => {
+            let (syntax, unit) = what.split_once('+').unwrap_or((what, "crlf"));
+            let u = match unit {
+                "crlf" => "\r\n",
+                "lfcr" => "\n\r",
+                "quote" => "\"",
+                "backslash" => "\\",
+                "tab" => "\t",
+                "cr" => "\r",
+                "backslash-quote" => "\\\"",
+                _ => "\n",
+            };
+            let q = MQ::new(iri("http://x/s".into()), iri("http://x/p".into()), MT::string(u.repeat(n as usize)), if syntax == "nq" || syntax == "trig-pretty" { Some(iri("http://x/g".into())) } else { None });
+            serialize(syntax, &[q])
         }
         "sparql" => match what {
             "graph-var" | "graph-var-light" => {
